@@ -643,3 +643,10 @@ func sortedKeys(m map[string]int) []string {
 	sort.Strings(k)
 	return k
 }
+
+func capList(l []string, n int) []string {
+	if len(l) <= n {
+		return l
+	}
+	return append(append([]string{}, l[:n]...), fmt.Sprintf("... (%d more)", len(l)-n))
+}
